@@ -347,6 +347,10 @@ impl<Aux> Vm<'_, Aux> {
             |err,
              instr_ptr: usize,
              stack: &crate::collections::bounded_stack::BoundedStack<CallFrame>| {
+                #[cfg(feature = "verif-hooks")]
+                if crate::verif_hooks::skip_error_trace() {
+                    return ExecutionError::new(err, Vec::new());
+                }
                 let mut trace = Vec::with_capacity(stack.len() + 1);
                 if let Some(t) = program.trace.get(&(instr_ptr as u32)).cloned() {
                     trace.push(t);
